@@ -629,8 +629,9 @@ class DataLinkConnection(TransmissionControlObject):
 
         elif self.state.CONNECT and rcvd_pdu.name in ("CC", "DM"):
             with self.lock:
-                self.recv_queue.append(rcvd_pdu)
-                self.recv_ready.notify()
+                if len(self.recv_queue) == 0:  # only the first answer counts
+                    self.recv_queue.append(rcvd_pdu)
+                    self.recv_ready.notify()
 
         elif self.state.DISCONNECT and rcvd_pdu.name == "DM":
             with self.lock:
